@@ -25,7 +25,11 @@ CONSTANTS
   Bug_SeqFromManifestOnly = FALSE
   Bug_ReplaySkipsOlderLogs = FALSE
   Bug_CounterNotRestored = FALSE
+  Bug_CloseInstallsPartial = FALSE
+  Bug_MoveRecordLosesDelete = FALSE
+  Bug_OpenKeepsOldLogNumber = FALSE
 INVARIANTS RReadCorrect RWellFormed RSeqSane ManifestMatches NumbersFresh
+PROPERTIES NoDeadLogAfterPass
 CONSTRAINT RBound
 VIEW RView
 CHECK_DEADLOCK FALSE
